@@ -212,6 +212,48 @@ impl Space for IdentSweep {
     }
 }
 
+/// The byte order a spec reports about itself: `is_little` / `is_big` are complementary and agree
+/// with the EI_DATA byte the spec was made from (all 256 bytes, 4 spec types).
+struct SpecFlags;
+impl Space for SpecFlags {
+    fn name(&self) -> String {
+        "from_ei_data over all 256 EI_DATA bytes x {AnyEndian, LittleEndian, BigEndian, NativeEndian}: accepted exactly for the spec's set; the spec it yields reports is_little() == (byte == ELFDATA2LSB) and is_big() == !is_little()".into()
+    }
+    fn size(&self) -> u64 {
+        1
+    }
+    fn describe(&self, _idx: u64) -> Value {
+        json!({"ei_data": "0..=255"})
+    }
+    fn run(&self, _idx: u64, out: &mut Outcome) {
+        fn go<E: EndianParse + core::fmt::Debug>(who: &str, accepts: &[u8], out: &mut Outcome) {
+            for d in 0..=255u8 {
+                out.transitions += 1;
+                match subject(|| E::from_ei_data(d).ok().map(|e| (e.is_little(), e.is_big()))) {
+                    Err(m) => out.violate(format!("panic:{who}::from_ei_data"), m),
+                    Ok(None) => {
+                        if accepts.contains(&d) {
+                            out.violate(format!("spec-rejects-own-order:{who}::from_ei_data"), format!("EI_DATA {d}"));
+                        }
+                    }
+                    Ok(Some((l, b))) => {
+                        if !accepts.contains(&d) {
+                            out.violate(format!("spec-accepts-foreign-order:{who}::from_ei_data"), format!("EI_DATA {d}"));
+                        } else if l != (d == 1) || b == l {
+                            out.violate(format!("byte-order-flags:{who}"), format!("made from EI_DATA {d}: is_little() = {l}, is_big() = {b}"));
+                        }
+                    }
+                }
+            }
+        }
+        go::<AnyEndian>("AnyEndian", &[1, 2], out);
+        go::<LittleEndian>("LittleEndian", &[1], out);
+        go::<BigEndian>("BigEndian", &[2], out);
+        go::<elf::endian::NativeEndian>("NativeEndian", &[1], out);
+        out.nontrivial(0x5bec);
+    }
+}
+
 /// Every ElfStream query under one spec, as (label, digest of the Debug text of the answer).
 fn stream_observe<E: EndianParse + 'static>(bytes: &[u8]) -> Vec<(String, u64)> {
     let mut v: Vec<(String, u64)> = Vec::new();
@@ -326,6 +368,7 @@ pub fn build(tier: Tier) -> CheckDef {
     sks.extend(extnum_shapes());
     sks.extend(wide_shapes());
     spaces.push(Box::new(StreamAnyVsFixed { sks }));
+    spaces.push(Box::new(SpecFlags));
     // the run-time spec against the compile-time ones at the level of single integer reads (value,
     // cursor, and behaviour on failure)
     spaces.push(Box::new(super::c04::ShortBuffers { maxlen: 2 }));
